@@ -389,7 +389,7 @@ def stepLine (st : St) (line : String) : St × String :=
     -- the same day through the real `synchronise_day`: the caller only learns Ok / Err
     match nat? rest "r" with
     | some r =>
-      if tieOnSysRow st then (st, "bad-op")
+      if tieOnSysRow st then ({ st with batch := St.init.batch }, "bad-op")   -- the batch is consumed
       else
         let res := syncDay st.dI st.inst r st.batch
         let cls := match res.2 with | .done _ _ => "ok" | _ => "err"
@@ -398,7 +398,7 @@ def stepLine (st : St) (line : String) : St × String :=
   | "sync" :: rest =>
     match nat? rest "r" with
     | some r =>
-      if tieOnSysRow st then (st, "bad-op")
+      if tieOnSysRow st then ({ st with batch := St.init.batch }, "bad-op")   -- the batch is consumed
       else
         let res := syncDay st.dI st.inst r st.batch
         ({ st with inst := res.1, batch := St.init.batch }, s!"sync {fmtOutcome res.2} {dump res.1}")
